@@ -502,7 +502,7 @@ func c17Decrypt(p *Policy, kctx, aad []byte, ct string) ([]byte, error) {
 	return b, nil
 }
 
-func TestVerif_C17_PolicyRoundTrip(t *testing.T) {
+func TestVerif_C17_RoundTrip(t *testing.T) {
 	seed := kit.Seed(17)
 	shard := c17Shard()
 	r := kit.NewResult(t, "c17-policy-roundtrip", seed, "case = (key type, mode in {plain, derived-hkdf, convergent-v3, derived-legacy-kdf}, key version incl. 'latest', plaintext size in {0,1,15,16,17,4096 | RSA-OAEP max}, context, associated data) on keysutil.Policy; non-trivial when the tuple is distinct; per case: encrypt, check the version label, decrypt = plaintext, independent re-open with crypto/aes|chacha20poly1305 + HKDF on the labelled version's key material (exact ciphertext equality in convergent mode), wrong/missing context and associated data must be refused, and ~70 mutants of the ciphertext string (every header char, version spellings, bit flips, truncation/extension, base64 re-spellings, header/body transplants across versions) must be refused unless they decode to the same (version, bytes) tuple, in which case only the original plaintext is acceptable")
@@ -1259,13 +1259,13 @@ var c17HistSpecs = []c17Spec{
 	{Type: KeyType_RSA2048},
 }
 
-func TestVerif_C17_PolicyHistory(t *testing.T) {
+func TestVerif_C17_History(t *testing.T) {
 	seed := kit.Seed(17)
 	shard := c17Shard()
 	r := kit.NewResult(t, "c17-policy-history", seed, "case = one seeded history of 30 operations on one keysutil policy (rotate, raise/lower min_decryption_version, set min_encryption_version, trim via min_available_version, backup, forced restore of an earlier backup, cache drop/reload, encrypt, sign, invalid settings that Persist must reject) with cached and cache-less lock managers; after every operation every remembered ciphertext/signature (newest per version + sample) is replayed: it must decrypt/verify to the original iff min_dec <= version <= latest and that version still holds the key that produced it, encrypt/sign must refuse versions below min_encryption_version, labels must equal the version used, the stored archive must contain the private material of every version in [min_available, latest] and storage must hold none of trimmed versions; a history is non-trivial when its operation sequence is distinct")
 	defer r.Write(t)
 	ctx := context.Background()
-	n := kit.N(90, 600)
+	n := kit.N(240, 3000)
 	for i := 0; i < n; i++ {
 		id := fmt.Sprintf("hist:%d:%d", shard, i)
 		if !kit.WantCase(id) {
@@ -1273,7 +1273,7 @@ func TestVerif_C17_PolicyHistory(t *testing.T) {
 		}
 		rng := kit.NewRand(seed, 1717000+uint64(i)+100000*uint64(shard))
 		spec := c17HistSpecs[i%len(c17HistSpecs)]
-		if spec.isRSA() && i >= kit.N(3, 8)*len(c17HistSpecs) {
+		if spec.isRSA() && i >= kit.N(4, 12)*len(c17HistSpecs) {
 			spec = c17HistSpecs[rng.Intn(len(c17HistSpecs)-1)]
 		}
 		c17RunHistory(ctx, r, rng, id, spec, i%2 == 1)
@@ -1397,7 +1397,7 @@ func c17RunHistory(ctx context.Context, r *kit.Result, rng *kit.Rand, id string,
 			} else {
 				h.m.MinEnc = e
 			}
-		case op < 44: // trim
+		case op < 47: // trim
 			if h.m.MinEnc == 0 {
 				continue
 			}
@@ -1413,6 +1413,9 @@ func c17RunHistory(ctx context.Context, r *kit.Result, rng *kit.Rand, id string,
 				continue
 			}
 			m := lo + rng.Intn(hi-lo+1)
+			if m < hi && rng.Chance(1, 2) {
+				m = hi
+			}
 			sig.WriteString(fmt.Sprintf("T%d", m))
 			err := k.with(true, func(p *Policy) error {
 				old := p.MinAvailableVersion
@@ -1432,7 +1435,7 @@ func c17RunHistory(ctx context.Context, r *kit.Result, rng *kit.Rand, id string,
 				}
 				h.m.MinAvail = m
 			}
-		case op < 50: // settings Persist must reject; nothing may change
+		case op < 52: // settings Persist must reject; nothing may change
 			sig.WriteString("X")
 			which := rng.Intn(3)
 			err := k.with(true, func(p *Policy) error {
@@ -1459,7 +1462,7 @@ func c17RunHistory(ctx context.Context, r *kit.Result, rng *kit.Rand, id string,
 			} else if err.Error() != "skip" {
 				r.Count("invalid_setting_rejected", 1)
 			}
-		case op < 56: // backup
+		case op < 58: // backup
 			sig.WriteString("B")
 			blob, err := k.lm.BackupPolicy(ctx, k.st, k.name)
 			h.log("backup err=%v", err)
@@ -1469,7 +1472,7 @@ func c17RunHistory(ctx context.Context, r *kit.Result, rng *kit.Rand, id string,
 				backups = append(backups, backup{blob, h.m.clone()})
 				r.Count("backups", 1)
 			}
-		case op < 62: // restore (forced) of any earlier backup
+		case op < 64: // restore (forced) of any earlier backup
 			if len(backups) == 0 {
 				continue
 			}
@@ -1483,7 +1486,7 @@ func c17RunHistory(ctx context.Context, r *kit.Result, rng *kit.Rand, id string,
 				h.m = b.m.clone()
 				r.Count("restores", 1)
 			}
-		case op < 68: // restart
+		case op < 69: // restart
 			sig.WriteString("L")
 			k.reload()
 			h.log("reload (drop cached policy objects)")
@@ -1543,7 +1546,7 @@ func c17EffSalt(bits int, h HashType, salt int, signing bool) int {
 	return salt
 }
 
-func TestVerif_C17_PolicySignVerify(t *testing.T) {
+func TestVerif_C17_SignVerify(t *testing.T) {
 	seed := kit.Seed(17)
 	shard := c17Shard()
 	r := kit.NewResult(t, "c17-policy-signverify", seed, "case = (signing key type, key version, hash, signature algorithm, salt length, marshaling, message) on keysutil.Policy; per case: sign, the raw signature must verify with the standard library against the public key remembered for the labelled version, Policy verify must say valid for the same parameters and not valid for each changed parameter (message bit, version label, hash of equal digest size, pss<->pkcs1v15, salt length unless the verifier uses 'auto', marshaling when it changes the decoded bytes, derivation context) and for ~70 mutants of the signature string unless they decode to the same (version, bytes); non-trivial when the tuple is distinct")
